@@ -1,0 +1,96 @@
+//go:build verif
+
+// Contracts for the govc verifier (/verif). Comment-only; compiled only with -tags verif.
+// groupsOK / paramInfoOK / stateOK / candsOK are defined in /verif/specs/pageinfo.ghost,
+// numbersOK / linksOK in /verif/specs/pagination.ghost, patternOK in /verif/specs/pattern.ghost.
+
+package parser
+
+// C01: the candidates map. A link is filed under the string of its pattern; positions only grow.
+//@ func (PageCandidatesMap).add(pagePattern, link)
+//@   requires pcm != nil && patternOK(pagePattern)
+//@   inline
+
+//@ func (*DetectionState).isEmpty()
+//@   ensures result == (ds.bestPageParamInfo == nil)
+
+//@ func (*DetectionState).compareAndUpdate(state)
+//@   requires stateOK(ds)
+//@   requires state != nil && state.bestPageParamInfo != nil
+//@   requires paramInfoOK(state.bestPageParamInfo)
+//@   ensures stateOK(ds) && ds.bestPageParamInfo != nil
+
+// C01: candidate detection for one monotonic group of numbers.
+//@ func newDetectionStateFromMonotonicNumbers(monotonicNumbers, isDescending, parsedDocURL, acceptedPagePattern)
+//@   requires numbersOK(monotonicNumbers) && len(monotonicNumbers) >= 2 && parsedDocURL != nil
+//@   ensures result == nil || (stateOK(result) && result.bestPageParamInfo != nil)
+//@   ensures numbersOK(monotonicNumbers)
+//@   ensures rowsKept(monotonicNumbers)
+//@   ensures cellsKept(monotonicNumbers)
+//@   loop 0 invariant numbersOK(monotonicNumbers)
+//@   loop 1 invariant numbersOK(monotonicNumbers) && 0 <= i && i + j == len(monotonicNumbers) - 1
+//@   loop 1 invariant rowsKept(monotonicNumbers)
+//@   loop 1 invariant cellsKept(monotonicNumbers)
+//@   loop 1 decreases j - i
+//@   loop 2 invariant numbersOK(monotonicNumbers)
+//@   loop 2 invariant rowsKept(monotonicNumbers)
+//@   loop 2 invariant cellsKept(monotonicNumbers)
+//@   loop 3 invariant numbersOK(monotonicNumbers)
+//@   loop 3 invariant rowsKept(monotonicNumbers)
+//@   loop 3 invariant cellsKept(monotonicNumbers)
+//@   loop 3 invariant parsedDocURL != nil && len(parsedURLs) == len(monotonicNumbers) && freshslice(parsedURLs)
+//@   loop 3 invariant candsHeap(pageCandidates)
+//@   loop 3 invariant candsRows(pageCandidates) && candsFresh(pageCandidates)
+//@   loop 3 invariant candsPat(pageCandidates)
+//@   loop 3 invariant candsApart(pageCandidates, monotonicNumbers) && candsApart(pageCandidates, parsedURLs)
+//@   loop 3 invariant candsLinks(pageCandidates, len(monotonicNumbers))
+//@   loop 4 invariant numbersOK(monotonicNumbers)
+//@   loop 4 invariant rowsKept(monotonicNumbers)
+//@   loop 4 invariant cellsKept(monotonicNumbers)
+//@   loop 4 invariant parsedDocURL != nil && len(parsedURLs) == len(monotonicNumbers) && freshslice(parsedURLs)
+//@   loop 4 invariant 0 <= i && i < len(monotonicNumbers) && page != nil && url != nil
+//@   loop 4 invariant forall(k, 0 <= k && k < len(queryPatterns), patternOK(queryPatterns[k]))
+//@   loop 4 invariant candsHeap(pageCandidates)
+//@   loop 4 invariant candsRows(pageCandidates) && candsFresh(pageCandidates)
+//@   loop 4 invariant candsPat(pageCandidates)
+//@   loop 4 invariant candsApart(pageCandidates, monotonicNumbers) && candsApart(pageCandidates, parsedURLs) && candsApart(pageCandidates, queryPatterns)
+//@   loop 4 invariant candsLinksHeap(pageCandidates)
+//@   loop 4 invariant candsLinksObj(pageCandidates)
+//@   loop 4 invariant candsLinksPos(pageCandidates, len(monotonicNumbers))
+//@   loop 5 invariant numbersOK(monotonicNumbers)
+//@   loop 5 invariant rowsKept(monotonicNumbers)
+//@   loop 5 invariant cellsKept(monotonicNumbers)
+//@   loop 5 invariant parsedDocURL != nil && len(parsedURLs) == len(monotonicNumbers)
+//@   loop 5 invariant candsHeap(pageCandidates)
+//@   loop 5 invariant candsRows(pageCandidates) && candsFresh(pageCandidates)
+//@   loop 5 invariant candsPat(pageCandidates)
+//@   loop 5 invariant candsApart(pageCandidates, monotonicNumbers)
+//@   loop 5 invariant candsLinks(pageCandidates, len(monotonicNumbers))
+//@   loop 6 invariant numbersOK(monotonicNumbers)
+//@   loop 6 invariant rowsKept(monotonicNumbers)
+//@   loop 6 invariant cellsKept(monotonicNumbers)
+//@   loop 6 invariant parsedDocURL != nil && len(parsedURLs) == len(monotonicNumbers)
+//@   loop 6 invariant 0 <= i && i < len(monotonicNumbers) && page != nil
+//@   loop 6 invariant forall(k, 0 <= k && k < len(pathPatterns), patternOK(pathPatterns[k]))
+//@   loop 6 invariant candsHeap(pageCandidates)
+//@   loop 6 invariant candsRows(pageCandidates) && candsFresh(pageCandidates)
+//@   loop 6 invariant candsPat(pageCandidates)
+//@   loop 6 invariant candsApart(pageCandidates, monotonicNumbers) && candsApart(pageCandidates, pathPatterns)
+//@   loop 6 invariant candsLinksHeap(pageCandidates)
+//@   loop 6 invariant candsLinksObj(pageCandidates)
+//@   loop 6 invariant candsLinksPos(pageCandidates, len(monotonicNumbers))
+//@   loop 7 invariant numbersOK(monotonicNumbers) && parsedDocURL != nil && candsOK(pageCandidates, len(monotonicNumbers)) && freshslice(strPatterns)
+//@   loop 7 invariant rowsKept(monotonicNumbers)
+//@   loop 7 invariant cellsKept(monotonicNumbers)
+//@   loop 7 invariant forall(k, 0 <= k && k < len(strPatterns), inmap(pageCandidates, strPatterns[k]))
+//@   loop 8 invariant numbersOK(monotonicNumbers) && parsedDocURL != nil && candsOK(pageCandidates, len(monotonicNumbers)) && stateOK(state)
+//@   loop 8 invariant rowsKept(monotonicNumbers)
+//@   loop 8 invariant cellsKept(monotonicNumbers)
+//@   loop 8 invariant forall(k, 0 <= k && k < len(strPatterns), inmap(pageCandidates, strPatterns[k]))
+
+// C01: detection over all groups; groups with fewer than two numbers are skipped.
+//@ func DetectParamInfo(adjacentNumberGroups, docURL, logger)
+//@   requires groupsOK(adjacentNumberGroups)
+//@   ensures paramInfoOK(result)
+//@   ensures groupsOK(adjacentNumberGroups)
+//@   loop 0 invariant groupsOK(adjacentNumberGroups) && parsedDocURL != nil && stateOK(detectionState)
